@@ -19,7 +19,9 @@ def bases(rng, n, tier):
     out = [("fixture:scx", dict(SC.fixtures())["test/resources/test-chkjson-scx.chk"])]
     for k in range(n):
         out.append((f"synthetic:{k}", SC.MapGen(random.Random(rng.randrange(10 ** 9)), "editor", nloc=255,
-                                                all_sections=(k % 3 != 2), shuffle_order=(k % 4 == 1)).build()))
+                                                all_sections=(k % 3 != 2), shuffle_order=(k % 4 == 1),
+                                                **({"upus_zero": True, "cuwp_twins": True, "identical_twins": True, "uprp_prefilled": (k % 2 == 0)}
+                                                   if k % 4 == 3 else {})).build()))
     return out
 
 
@@ -138,6 +140,10 @@ def c04_oracle(base, spec, out, keys=None):
                             # one authored object (a pool entry) is ONE slot, however many triggers, added in however many
                             # steps, refer to it
                             numbers.setdefault((v[0], v[1]), set()).add(rec[f])
+                        if c == "cuwp" and b"UPUS" in vo.by_name and len(vo.by_name[b"UPUS"][-1]) == 64 and 1 <= rec[f] <= 64 \
+                                and vo.by_name[b"UPUS"][-1][rec[f] - 1] != 1:
+                            return (f"authored trigger {ti} {part}[{ei}] (type {k}) argument {name}: the unit-property slot {rec[f]} it "
+                                    f"refers to is flagged as unused in UPUS")
                         want = expected_arg(c, v, spec, vb, vo)
                         have = view.get(name)
                         if name == "_duration_ms" and v[0] == 11:
